@@ -94,11 +94,36 @@ def run(ctx):
              "successful paths (C18.h) - decided where the generator is loop-free and the "
              "handler's effect is unique")
     rule_i(ctx, cr)
+    ctx.rule("C18.k", "NEXT reclaims abandoned loops: the search for the named FOR frame pops "
+             "every frame it passes over - each cycle of the search loop in Runtime::next takes "
+             "entries off the stack and pushes none - so loops left by GOTO do not pile up "
+             "under an outer loop that keeps going round")
+    rule_k(ctx, cr)
     ctx.rule("C18.g", "INPUT pushes exactly as many reply fields as the statement's Input opcodes "
              "pop: do_input rejects every reply whose field count differs from the variable count "
              "(see C17.f), so a completed INPUT leaves nothing on the stack")
     from rules import c17
     c17.rule_f(ctx, cr, "C18.g")
+
+
+def rule_k(ctx, cr):
+    f = cr.need_fn("mach::runtime::Runtime::next")
+    ctx.touch(f)
+    comps = f.sccs()
+    if not ctx.check(bool(comps), "C18.k", "next/search-loop", f.span,
+                     "Runtime::next searches the stack in a loop",
+                     "Runtime::next has no loop: a NEXT naming an outer variable cannot pass over "
+                     "(and discard) the frames of inner loops that were left early"):
+        return
+    for n, comp in enumerate(comps, 1):
+        cs = set(comp)
+        pops = [c for c in f.calls() if c.bb in cs and re.search(r"Stack<T>::pop(_\d)?$", c.name)]
+        pushes = [c for c in f.calls() if c.bb in cs and c.name.endswith("Stack<T>::push")]
+        ctx.check(bool(pops) and not pushes, "C18.k", "next/loop#%d/discards-what-it-passes" % n,
+                  f.span, "%d pops, %d pushes inside the search loop" % (len(pops), len(pushes)),
+                  "the frame search of NEXT goes round with %d pops and %d pushes: frames of "
+                  "abandoned inner loops stay on the stack each time the outer loop continues, "
+                  "until OUT OF MEMORY" % (len(pops), len(pushes)))
 
 
 def rule_a(ctx, cr):
